@@ -201,6 +201,17 @@ def run(rec, tier, seed):
                     rec.case(repr(spec), group='kinds')
                     if msg:
                         rec.fail('extend', 'extend', "%s on %r" % (msg, spec), spec, 'C11/extend/post')
+    # the other structure lists the same terms from their other end (an existing term on the same atoms is superseded whichever way it is listed)
+    for n in (3, 4, 5):
+        for c in (True, False):
+            a = dict(n=n, seed=0, terms=True, coeffs=c, extra=False, cell='ortho')
+            b = dict(n=n, seed=0, terms=True, coeffs=c, extra=False, cell=None, rev=True)
+            for m in [{i: i for i in range(n)}, {i: i for i in range(n - 1)}, {i: i for i in range(1, n)}]:
+                spec = dict(a=a, b=b, idmap={str(k): v for k, v in m.items()}, times=1)
+                msg = check(spec)
+                rec.case(repr(spec), group='reverse-listed')
+                if msg:
+                    rec.fail('extend', 'extend', "%s on %r" % (msg, spec), spec, 'C11/extend/post')
     # explicit shared offsets: extending a structure by a copy of a fragment of itself with offsets (0,0,0,0,0)
     for a in A:
         spec = dict(a=a, b=dict(a, cell=None), idmap={}, offsets=[0, 0, 0, 0, 0])
